@@ -51,6 +51,17 @@ H void h_cubic_state(const double* x, const double* f, const double* f2, long n,
   CubicSpline s; s.r_ = vec(x, n); s.f_ = vec(f, n); s.f2_ = vec(f2, n);
   out[0] = s.Calculate(r); out[1] = s.CalculateDerivative(r);
 }
+// the real Fit on a given grid; the constrained least-squares solver it calls is the environment boundary (intercepted by
+// the interpreter: its arguments are captured, its result is a vector of fresh symbols).  Returns f_ and f2_ afterwards.
+H long h_fit(const double* grid, long ngrid, const double* x, const double* y, long n, long periodic, double* f, double* f2) {
+  try {
+    CubicSpline s; s.setBC(periodic ? Spline::splinePeriodic : Spline::splineNormal);
+    s.r_ = vec(grid, ngrid);
+    s.Fit(vec(x, n), vec(y, n));
+    for (long i = 0; i < ngrid; i++) { f[i] = s.f_(i); f2[i] = s.f2_(i); }
+    return 0;
+  } catch (...) { return -1; }
+}
 H void h_smooth(const double* y, long n, long nsmooth, double* out) {
   Table t; t.resize(n);
   for (long i = 0; i < n; i++) { t.x(i) = (double)i; t.y(i) = y[i]; }
